@@ -689,6 +689,14 @@ def check_c08(tier):
         nb, _ = binlayouts.run(V, tier, {"c08"})
         replayed += nb
         V.notes["lsp_sessions"] = nb
+        nl = binlayouts.large_workspace(V, tier)
+        replayed += nl
+        V.notes["large_workspace_processes"] = nl
+    # the import universe: a test module that imports fixtures itself, next to an unrelated same-named sibling conftest
+    import diskchecks
+    n_imp, meta_imp = diskchecks.c08_own_imports(V, tier)
+    replayed += 2 * n_imp
+    V.notes["own_import_cases"] = n_imp
     # cycle reports: registration-order and run-to-run stability on the dependency-graph table
     import depgraphs
     cov2 = depgraphs.run(V, ["cycles"], semantics=False)
@@ -700,7 +708,9 @@ def check_c08(tier):
         rule="for every layout of spec/Layouts.tla the full observable snapshot (navigation per usage, references "
              "per definition, per-file view, outgoing-calls resolver, CLI unused; cycles and scope mismatches in the DepGraphs table) is "
              "computed on the real library under EVERY registration order of the files defining the name and the "
-             "snapshots are compared; non-trivial = layout with >= 2 orders; TLC checks RepairedEqualsR under all orders",
+             "snapshots are compared; non-trivial = layout with >= 2 orders; TLC checks RepairedEqualsR under all orders; plus the "
+             "Imports.tla workspaces whose using file is a test module importing fixtures itself, on disk, analysed with an "
+             "unrelated same-named sibling conftest first / last",
         assumptions=["the parallel scan's schedule affects the index only through per-file analysis order (C09 covers atomicity)",
                      "process-level (hash seed) and RAYON_NUM_THREADS variation is exercised in the on-disk tier"])
 
